@@ -2,7 +2,7 @@
    schedulers/components did (global update trace, tick log, master tick real times).
    Independent of the simulation function of Model/Sim.v: only the configuration, the
    flattening defined here and the device table are used. *)
-From TV Require Import Base Model.Wiring Model.Ticker Model.Component Model.Sim Model.SimTime Model.Inline Model.NSim Oracle.SimCheck.
+From TV Require Import Base Model.Wiring Model.Ticker Model.Component Model.Sim Model.SimTime Model.Inline Model.NSim Model.Interrupts Model.NNSim Oracle.SimCheck.
 Open Scope Z_scope.
 
 (* ---------- flattening a nested configuration (C09, C03) *)
@@ -396,7 +396,34 @@ Definition check_nsim (c : sim_case) : list Z :=
 (* not a check: marks the cases on which [check_nsim] applies *)
 Definition nsim_scope (g : sim_case * list sim_case) : list Z := if nsim_applies (fst g) then [1] else [].
 
+(* 24: on a nested simulation at speed 1 the nested schedule-explicit model (Model/NNSim.v: every level's ticker driven
+   answer by answer, a system simulation answering with a tick of its own level in the state as it is when its turn
+   comes; first-dispatched-first and last-dispatched-first at all levels; interrupts of devices at any depth) and
+   Model/Sim.v give some device different observations *)
+Definition nnsim_applies (c : sim_case) : bool :=
+  Z.eqb (sc_num c) 1 && Z.eqb (sc_den c) 1 && negb (Nat.eqb (length (sc_cfg c)) 1)
+  && match sc_pre c with [] => true | _ => false end.
+Definition nnsim_obs (c : sim_case) (pick : list (comp * bool) -> option comp) : option (list obs) :=
+  match xnsim_timed_from_start (sc_cfg c) (table_dev (sc_devs c)) pick 400 8 4000 (sc_initial c)
+          (map (fun st : stimulus => let '(r, d, lvc, path) := st in (r + sc_initial c, d, lvc, path)) (sc_stim c))
+          (sc_initial c + sc_end c) with
+  | Some (_, ob) => Some ob
+  | None => None
+  end.
+Definition check_nnsim (c : sim_case) : list Z :=
+  if nnsim_applies c then
+    match nnsim_obs c pick_first, nnsim_obs c pick_last with
+    | Some o1, Some o2 =>
+        if forallb (fun d : comp =>
+                      seq_eqb (obs_of d o1) (obs_of d (model_obs c)) && seq_eqb (obs_of d o2) (obs_of d (model_obs c)))
+                   (keys (sc_devs c))
+           && Nat.eqb (length o1) (length (model_obs c)) && Nat.eqb (length o2) (length (model_obs c))
+        then [] else [24]
+    | _, _ => [24]
+    end
+  else [].
+
 Definition check_sched (g : sched_case) : list Z :=
   let '(r, ds) := g in
   check_sim_all r ++ flat_map check_sim_obs ds ++
-  (if forallb (fun d => same_devices r d && same_devices d r) ds then [] else [22]) ++ check_nsim r.
+  (if forallb (fun d => same_devices r d && same_devices d r) ds then [] else [22]) ++ check_nsim r ++ check_nnsim r.
